@@ -53,6 +53,8 @@ def main():
         meta = json.load(open(os.path.join(d, "meta.json"))) if os.path.exists(os.path.join(d, "meta.json")) else {}
         parts = d.rstrip("/").split("/")
         name = f"{meta.get('property', parts[-3])}-{tag}{parts[-1]}" if "_seed" in parts else "-".join(parts[-2:])
+        if os.path.dirname(d) == os.path.join(HERE, "seeded"):
+            name = parts[-1]  # refreshing a kept seed in place
         wt = tempfile.mkdtemp(prefix="seedwt_")
         os.rmdir(wt)
         res = {"seed": name, "property": meta.get("property")}
@@ -112,7 +114,8 @@ def main():
             dst = os.path.join(HERE, "seeded", name)
             os.makedirs(dst, exist_ok=True)
             for f in ("patch.diff", "demo.py"):
-                shutil.copy(os.path.join(d, f), os.path.join(dst, f))
+                if os.path.abspath(d) != os.path.abspath(dst):
+                    shutil.copy(os.path.join(d, f), os.path.join(dst, f))
             meta = dict(meta)
             meta["confirmed"] = {
                 "demo_on_clean_tree_rc": res["demo_clean_rc"],
@@ -126,7 +129,7 @@ def main():
             meta["detected_by"] = {k: v["keys"] for k, v in res.get("fired", {}).items() if v["rc"] == 1 and v["keys"]}
             meta["detected_by_own_property_check"] = res.get("detected_by_own_property")
             json.dump(meta, open(os.path.join(dst, "meta.json"), "w"), indent=1)
-    json.dump(results, open(os.path.join(tempfile.gettempdir(), "seedtest_last.json"), "w"), indent=1)
+    json.dump(results, open(os.path.join(tempfile.gettempdir(), f"seedtest_last_{os.getpid()}.json"), "w"), indent=1)
 
 
 if __name__ == "__main__":
